@@ -255,6 +255,7 @@ Definition chk (c : streams * list (rop * xp)) : bool := replay (mkR (fst c) [] 
   ja = [{'form': f, 'nsib': rng.randint(2, 3), 'draws': rng.randint(1, 2), 'own': rng.random() < 0.6, 'applies': 2, 'seed': rng.randint(0, 99)}
         for f in ('method', 'class', 'fold', 'core') for _ in range(3 if thorough else 1)]
   jar = common.run_impl('impl_c09.py', {'jit_args': ja}, timeout=1500)['jit_args']
+  jrows = []
   for c, r in zip(ja, jar):
     chk.count({'linen_jit_arg_keys': c}, True)
     if 'err' in r:
@@ -266,6 +267,34 @@ Definition chk (c : streams * list (rop * xp)) : bool := replay (mkR (fst c) [] 
     elif len({tuple(k) for k in runs[0]}) != len(runs[0]):
       chk.violation('oracle', 'two draws at different module paths returned the same key: scopes handed to lift.jit / fold_rngs (%s form) as arguments lose their path' % c['form'],
                     {'case': c, 'observed': runs[0]})
+    elif runs[0] != r['ok']['recomputed']:
+      chk.violation('correspondence', 'Model/Rng.v (LazyRng, materialise at the jit boundary) and flax disagree: an observed key is not the key the model\'s term denotes (C09_jit_* no longer transfer)',
+                    {'case': c, 'roles': r['ok']['roles'], 'observed': runs[0], 'model_keys': r['ok']['recomputed']})
+    else:
+      # the terms the re-computation realised are the model's terms (the byte strings are written by the harness's own encoder)
+      def enc_bytes(suffix):
+        b = b''
+        for x in suffix:
+          b += x.encode('utf-8') if isinstance(x, str) else int(x).to_bytes((int(x).bit_length() + 7) // 8, 'big')
+        return clist([cN(v) for v in b])
+      fstr = lambda nm: '(FStr %s)' % clist([cN(v) for v in nm.encode('utf-8')])
+      rootl = '(mkLazy (LRoot %s) [])' % cN(c['seed'])
+      parts = []
+      for role in r['ok']['roles']:
+        if role[0] == 'root':
+          parts.append('lkey_beq (make_rng_key false %s %s) (LFold (LRoot %s) %s)' % (rootl, cN(role[1]), cN(c['seed']), enc_bytes([role[1]])))
+        elif role[0] == 'out':
+          parts.append('lkey_beq (make_rng_key false (child_rng %s %s) %s) (LFold (LRoot %s) %s)' % (rootl, fstr(role[1])[6:-1], cN(role[2]), cN(c['seed']), enc_bytes([role[1], role[2]])))
+        else:
+          parts.append('lkey_beq (make_rng_key false (materialise false (child_rng %s %s)) %s) (LFold (LFold (LRoot %s) %s) %s)' % (
+              rootl, fstr(role[1])[6:-1], cN(role[2]), cN(c['seed']), enc_bytes([role[1]]), enc_bytes([role[2]])))
+      jrows.append((c, '(' + ' && '.join(parts) + ')'))
+  if jrows:
+    jhdr = 'From Flaxm Require Import Lib.Harness Model.Rng.\nDefinition chk (b : bool) : bool := b.\n'
+    bad = common.coq_mismatches('c09_jit', jhdr, [x[1] for x in jrows], 'chk', shard=50)
+    for i in bad[:4]:
+      chk.violation('correspondence', 'Model/Rng.v make_rng_key / child_rng / materialise and the byte strings hashed for scopes handed to lift.jit disagree', {'case': jrows[i][0]})
+    chk.cov['traces_validated_against_impl'] += len(jrows)
   # NNX streams inside a Linen program (nnx.bridge.ToLinen reseeds them on every apply)
   bk = [{'skip_rng': sk, 'stream': rng.choice(['dropout', 'noise']), 'own_seed': rng.randint(0, 5), 'calls': rng.randint(2, 3), 'seed': rng.randint(1, 50)} for sk in (True, False)]
   bkr = common.run_impl('impl_c09.py', {'bridge_keys': bk}, timeout=900)['bridge_keys']
